@@ -26,6 +26,9 @@ theorem serve_conds_src :
 theorem serve_inputs_src : serve_inputs = "r.Method, r.URL.Path, r.RemoteAddr" := by decide
 theorem del_src : (del0, del1, del2, del3, del_count) =
     ("httphdr.CFConnectingIP", "httphdr.Forwarded", "httphdr.TrueClientIP", "httphdr.XRealIP", "4") := by decide
+/-- the deletions and the two sets act on the header map of the request that is handed to the proxy
+(no clone in between). -/
+theorem hdr_alias_src : hdr_alias = "r.Header" := by decide
 theorem ip_source_src : ip_source = "netutil.SplitHost(rAddr)" := by decide
 theorem set_src : (set0, set1) = ("httphdr.XConnectingIP, ip", "httphdr.XRequestID, reqID.String()") := by decide
 theorem serve_calls_src : serve_calls =
